@@ -71,6 +71,7 @@ class World:
     def __init__(self, rnd, codes=None, big_tids=True):
         self.rnd = rnd
         self.codes = dict(default_codes()) if codes is None else codes
+        self.parser_codes = self.codes        # the table handed to the code (may be the code's own parse of a text)
         self.name2id = {}
         for i, n in self.codes.items():
             if i & 3 == 0:
@@ -374,7 +375,7 @@ def new_parser(world, log=None, tpid=None, pname=None):
     log = [] if log is None else log
     tp = RecordingDict('tpid', log, tpid or {})
     pn = RecordingDict('pname', log, pname or {})
-    p = TracesParser(world.codes, tp, pn)
+    p = TracesParser(world.parser_codes, tp, pn)
     p.tids_names = RecordingDict('tname', log)
     p.global_strings = RecordingDict('gstr', log)
     del log[:]
